@@ -69,6 +69,8 @@ let rec nat_of_int i = if i = 0 then O else S (nat_of_int (i - 1))
 (* ---- observation records ---- *)
 type winst = { wf : int; wtid : int; wq : int list; wstore : (int * (int * int * int)) list; whits : int option; wmisses : int option }
 
+let entry_sizes : (int * int * int, int) Hashtbl.t = Hashtbl.create 256    (* (f, key, enc) -> estimated size *)
+
 let parse_w line =
   match String.split_on_char '|' line with
   | [a; q; st; stats] ->
@@ -79,7 +81,9 @@ let parse_w line =
     let wq = if q = "-" then [] else List.map int_of_string (split_on ',' q) in
     let wstore = if st = "-" then [] else
         List.map (fun e -> match List.map int_of_string (split_on ':' e) with
-            | [k; v; f; b] -> (k, (v, f, b)) | _ -> failwith ("entry " ^ e)) (split_on ';' st) in
+            | [k; v; f; b] -> (k, (v, f, b))
+            | [k; v; f; b; sz] -> Hashtbl.replace entry_sizes (wf, k, v) sz; (k, (v, f, b))
+            | _ -> failwith ("entry " ^ e)) (split_on ';' st) in
     let whits, wmisses = (match split_on ' ' stats with
         | ["-"; "-"] -> (None, None)
         | [h; m] -> (Some (int_of_string h), Some (int_of_string m))
@@ -104,12 +108,18 @@ let stat : (string, int) Hashtbl.t = Hashtbl.create 64
 let bump k = Hashtbl.replace stat k (1 + (try Hashtbl.find stat k with Not_found -> 0))
 
 let preds = ref []
+let mask = ref ["ret"; "keys"; "queue"; "vals"; "freq"; "born"; "stats"; "counts"]
+let resync = ref true
 
 let () =
   let args = Array.to_list Sys.argv in
   let fns = read_table (List.nth args 1) in
   let file = List.nth args 2 in
-  let rec pa = function "--preds" :: v :: r -> preds := split_on ',' v; pa r | _ :: r -> pa r | [] -> () in
+  let rec pa = function
+    | "--preds" :: v :: r -> preds := split_on ',' v; pa r
+    | "--mask" :: v :: r -> mask := split_on ',' v; pa r
+    | "--lockstep" :: r -> resync := false; pa r
+    | _ :: r -> pa r | [] -> () in
   pa args;
   let ic = open_in file in
   let cur_id = ref "" in
@@ -128,6 +138,7 @@ let () =
   let pending_call : (int * int * call_in * (key * res) option) option ref = ref None in   (* f, world index, input, asked_inv *)
   let stored_at : (int * int * int, int) Hashtbl.t = Hashtbl.create 64 in
   let used_at : (int * int * int, int) Hashtbl.t = Hashtbl.create 64 in
+  let hits_since : (int * int * int, int) Hashtbl.t = Hashtbl.create 64 in
   let prev_inst : (int * int, winst) Hashtbl.t = Hashtbl.create 64 in       (* last snapshot of every instance *)
   let exp_stats : (int, int * int) Hashtbl.t = Hashtbl.create 64 in          (* f -> hits, misses expected from exec flags *)
   let has p = List.mem p !preds in
@@ -158,15 +169,44 @@ let () =
       let instances = List.rev !ws in
       (* ---- run the model ---- *)
       let expect_r = ref "" and got_r = ref (String.concat " " rl) in
+      let hasm f = List.mem f !mask in
       let check_instances () =
-        (* every observed instance must equal the model's state of that instance *)
+        (* every observed instance must equal the model's state of that instance, under the field mask *)
         List.iter (fun wi ->
             let e = get_entry wi.wf wi.wtid in
             let (mq, mst, mh, mm) = inst_of_state e.ce_st in
-            let impl = (wi.wq, wi.wstore, (match wi.whits with Some h -> h | None -> mh), (match wi.wmisses with Some m -> m | None -> mm)) in
-            if (mq, mst, mh, mm) <> impl then
-              set_verdict (Printf.sprintf "MISMATCH %d state f%d/%d model={%s} impl={%s}" !evidx wi.wf wi.wtid
-                             (show_inst (mq, mst, mh, mm)) (show_inst impl))) instances in
+            let keys l = List.map fst l in
+            let proj f l = List.map (fun (k, x) -> (k, f x)) l in
+            let same_keys = keys mst = keys wi.wstore in
+            let diff =
+              if hasm "keys" && not same_keys then Some "keys"
+              else if hasm "nkeys" && List.length mst <> List.length wi.wstore then Some "nkeys"
+              else if hasm "queue" && mq <> wi.wq then Some "queue"
+              else if hasm "qset" && List.sort compare mq <> List.sort compare wi.wq then Some "qset"
+              else if hasm "vals" && same_keys && proj (fun (v, _, _) -> v) mst <> proj (fun (v, _, _) -> v) wi.wstore then Some "vals"
+              else if hasm "freq" && same_keys && proj (fun (_, f, _) -> f) mst <> proj (fun (_, f, _) -> f) wi.wstore then Some "freq"
+              else if hasm "born" && same_keys && proj (fun (_, _, b) -> b) mst <> proj (fun (_, _, b) -> b) wi.wstore then Some "born"
+              else if hasm "stats" && (match wi.whits, wi.wmisses with Some h, Some m -> (h, m) <> (mh, mm) | _ -> false) then Some "stats"
+              else None in
+            (match diff with
+             | Some fld ->
+               let impl = (wi.wq, wi.wstore, (match wi.whits with Some h -> h | None -> mh), (match wi.wmisses with Some m -> m | None -> mm)) in
+               set_verdict (Printf.sprintf "MISMATCH %d state(%s) f%d/%d model={%s} impl={%s}" !evidx fld wi.wf wi.wtid
+                              (show_inst (mq, mst, mh, mm)) (show_inst impl))
+             | None -> ())) instances in
+      (* step-wise: the next event starts from the implementation's own state *)
+      let resync_instances () =
+        if !resync then
+          List.iter (fun wi ->
+              let widx = Hashtbl.find !index (wi.wf, wi.wtid) in
+              let e = List.nth !world widx in
+              let st = List.map (fun (k, (v, f, b)) ->
+                  let sz = (try Hashtbl.find entry_sizes (wi.wf, k, v) with Not_found ->
+                      (match List.find_opt (fun (k', _) -> int_of_n k' = k) e.ce_st.st_store with Some (_, en) -> int_of_n en.e_size | None -> 0)) in
+                  (n_of_int k, { e_val = n_of_int v; e_size = n_of_int sz; e_born = n_of_int b; e_freq = n_of_int f })) wi.wstore in
+              let (h, m) = (match wi.whits, wi.wmisses with Some h, Some m -> (n_of_int h, n_of_int m) | _ -> (e.ce_st.st_hits, e.ce_st.st_misses)) in
+              let s' = { st_store = st; st_queue = List.map n_of_int wi.wq; st_hits = h; st_misses = m } in
+              world := List.mapi (fun i x -> if i = widx then { x with ce_used = true; ce_st = s' } else x) !world) instances in
       (match kind with
        | "tag" | "event" | "dep" | "invc" | "invcn" | "invw" | "invall" -> inval_seen := true
        | _ -> ());
@@ -276,6 +316,44 @@ let () =
                        fail "order" (Printf.sprintf "f%d: %s evicted key %d although key %d was %s longer ago" f
                                        (if cfgc.pol = LRU then "LRU" else "FIFO") r sv (if cfgc.pol = LRU then "used" else "stored"))) surv) gone
            end;
+           if has "score" && exec > 0 && gone <> [] && (match cfgc.pol with LFU | ARC | TLRU -> true | _ -> false)
+              && List.length gone = 1 && List.mem_assoc x post_store = (fn.fl = "a" || List.mem_assoc x post_store) then begin
+             (* documented score from the implementation's own history: hits since the last store,
+                recency rank by last use, remaining lifetime from the birth in the previous snapshot *)
+             let hits k = (try Hashtbl.find hits_since (f, itid, k) with Not_found -> 0) in
+             let used k = (try Hashtbl.find used_at (f, itid, k) with Not_found -> 0) in
+             let cands = List.map fst prev_store in
+             let cands = List.filter (fun k -> k <> x) cands in
+             let cands = if fn.fl = "a" then cands else x :: cands in        (* sync: the newcomer competes *)
+             let hits' k = if k = x && fn.fl <> "a" then 0 else hits k in
+             let used' k = if k = x && fn.fl <> "a" then max_int else used k in
+             let rank k = 1 + List.length (List.filter (fun k' -> used' k' < used' k) cands) in
+             let nowi = int_of_n now in
+             let remaining k =
+               (match cfgc.ttl with
+                | None -> 1
+                | Some t ->
+                  let t = int_of_n t in
+                  let born = if k = x && fn.fl <> "a" then nowi else (match List.assoc_opt k prev_store with Some (_, _, b) -> b | None -> nowi) in
+                  if fn.fl = "a" then t - min t (nowi / 1000 - born / 1000) else 1000 * t - min (1000 * t) (nowi - born)) in
+             let (wn, wd) = (match cfgc.fw with Some (n, d) -> (int_of_pos n, int_of_pos d) | None -> (1, 1)) in
+             let rec pow b e = if e = 0 then 1.0 else b *. pow b (e - 1) in
+             let score k =
+               (match cfgc.pol with
+                | LFU -> float_of_int (hits' k)
+                | ARC -> float_of_int (hits' k * rank k)
+                | _ -> pow (float_of_int (hits' k)) wn *. pow (float_of_int (rank k * remaining k)) wd) in
+             let (victim, _) = List.hd gone in
+             let sv = score victim in
+             List.iter (fun k ->
+                 if score k < sv *. (1.0 -. 1e-9) then
+                   fail "score" (Printf.sprintf "f%d: evicted key %d (score %.3g) although key %d has the lower score %.3g" f victim sv k (score k))) cands
+           end;
+           (* hits since the last store, from the history *)
+           (* a lookup that found an unexpired entry is a successful lookup even when invalidate_on then rejects the entry *)
+           (if exec = 0 || invlog <> "-" then Hashtbl.replace hits_since (f, itid, x) (1 + (try Hashtbl.find hits_since (f, itid, x) with Not_found -> 0)));
+           (if exec > 0 && (match stored_after with Some (v, _, _) -> v = int_of_n (enc body) | None -> false) && impl_store_decision fn okb cifb
+            then Hashtbl.replace hits_since (f, itid, x) 0);
            (* update the history stamps *)
            (if exec = 0 then Hashtbl.replace used_at (f, itid, x) !evidx
             else if List.mem_assoc x post_store then begin
@@ -298,7 +376,9 @@ let () =
              | Some wi -> List.map fst wi.wstore | None -> []) in
          let removed = List.filter (fun k -> not (List.mem k post_keys)) (if List.mem x pre_keys then pre_keys else x :: pre_keys) in
          if List.length removed > 0 && exec > 0 then nontrivial := true;
-         let cands = if fn.w.w_cfg.pol = Random && List.length removed <= 5 then perms removed else [[]] in
+         let scored = (match fn.w.w_cfg.pol with LFU | ARC | TLRU -> true | _ -> false) in
+         let cands = if fn.w.w_cfg.pol = Random && List.length removed <= 5 then perms removed
+           else if scored && List.length removed <= 5 then [] :: perms removed else [[]] in
          let run ch =
            let ci = { ci_key = n_of_int x; ci_body = body; ci_size = n_of_int size; ci_inv = inv = "1"; ci_cif = cif = "1";
                       ci_ch = List.map n_of_int ch } in
@@ -321,7 +401,7 @@ let () =
             let show_asked = function None -> "-" | Some (k, r) -> Printf.sprintf "%d:%d" (int_of_n k) (int_of_n (enc r)) in
             let m_inv = show_asked co.co_inv_asked and m_cif = show_asked co.co_cif_asked in
             expect_r := Printf.sprintf "exec=%d enc=%d inv=%s cif=%s" m_exec m_enc m_inv m_cif;
-            if field "panic" = None && (m_exec <> exec || m_enc <> enc_v || m_inv <> invlog || m_cif <> ciflog) then
+            if hasm "ret" && field "panic" = None && (m_exec <> exec || m_enc <> enc_v || m_inv <> invlog || m_cif <> ciflog) then
               set_verdict (Printf.sprintf "MISMATCH %d call f%d x=%d model={%s} impl={exec=%d enc=%d inv=%s cif=%s}"
                              !evidx f x !expect_r exec enc_v invlog ciflog))
        | "callA", f :: x :: _tid :: ok :: v :: _len :: inv :: cif :: _ ->
@@ -382,7 +462,9 @@ let () =
             let post_keys = (match List.find_opt (fun wi -> wi.wf = f && wi.wtid = -1) instances with
                 | Some wi -> List.map fst wi.wstore | None -> []) in
             let removed = List.filter (fun k -> not (List.mem k post_keys)) (if List.mem x pre_keys then pre_keys else x :: pre_keys) in
-            let cands = if fn.w.w_cfg.pol = Random && List.length removed <= 5 then perms removed else [[]] in
+            let scored = (match fn.w.w_cfg.pol with LFU | ARC | TLRU -> true | _ -> false) in
+            let cands = if fn.w.w_cfg.pol = Random && List.length removed <= 5 then perms removed
+              else if scored && List.length removed <= 5 then [] :: perms removed else [[]] in
             let run ch = world_finish !world (nat_of_int widx) now { ci with ci_size = n_of_int size; ci_ch = List.map n_of_int ch } a in
             let matches_impl (w', _) =
               match List.find_opt (fun wi -> wi.wf = f && wi.wtid = -1) instances with
@@ -438,7 +520,7 @@ let () =
          end;
          if has "frame" then check_frame "frame" (List.map (fun wi -> (wi.wf, wi.wtid)) matching) instances;
          if int_of_n n > 0 then nontrivial := true;
-         if rl <> ["count"; string_of_int (int_of_n n)] then
+         if hasm "counts" && rl <> ["count"; string_of_int (int_of_n n)] then
            set_verdict (Printf.sprintf "MISMATCH %d %s %s model=count %d impl=%s" !evidx kind name (int_of_n n) !got_r)
        | "invc", f :: _ ->
          let (w', b) = invalidate_cache (n_of_int (intern fns.(int_of_string f).name)) !world in
@@ -516,6 +598,7 @@ let () =
        | "rsleep", _ -> ()
        | _ -> failwith ("event " ^ kind));
       if !verdict = None then check_instances ();
+      resync_instances ();
       List.iter (fun wi -> Hashtbl.replace prev_inst (wi.wf, wi.wtid) wi) instances;
       ev := []; rline := []; ws := []
     | _ -> () in
@@ -529,7 +612,7 @@ let () =
          let (w, ix) = build_world fns in
          world := w; index := ix; verdict := None; evidx := 0; skip := false; fails := [];
          Hashtbl.reset seen_calls; Hashtbl.reset last_body; nontrivial := false;
-         Hashtbl.reset prev_inst; Hashtbl.reset exp_stats; inval_seen := false; pending_call := None; Hashtbl.reset stored_at; Hashtbl.reset used_at;
+         Hashtbl.reset prev_inst; Hashtbl.reset exp_stats; inval_seen := false; pending_call := None; Hashtbl.reset stored_at; Hashtbl.reset used_at; Hashtbl.reset hits_since;
          ev := []; rline := []; ws := []
        | "E" :: rest -> ev := rest
        | "R" :: rest -> rline := (match rest with "call" :: r -> r | r -> r)
